@@ -334,6 +334,28 @@ func init() {
 		g.run.addPC(ax)
 		return F64{T: t}
 	})
+	reg("math.Trunc", func(g *G, fr *Frame, fn *ssa.Function, a []Value) Value {
+		f := a[0].(F64)
+		if f.T == nil {
+			return F64{C: math.Trunc(f.C)}
+		}
+		return F64{T: &Term{Op: "fp.rti", S: SFP, Args: []*Term{f.T}}}
+	})
+	reg("math.Abs", func(g *G, fr *Frame, fn *ssa.Function, a []Value) Value {
+		f := a[0].(F64)
+		if f.T == nil {
+			return F64{C: math.Abs(f.C)}
+		}
+		return F64{T: &Term{Op: "fp.abs", S: SFP, Args: []*Term{f.T}}}
+	})
+	reg("math.Floor", func(g *G, fr *Frame, fn *ssa.Function, a []Value) Value {
+		f := a[0].(F64)
+		if f.T == nil {
+			return F64{C: math.Floor(f.C)}
+		}
+		g.inconclusive("math.Floor of a symbolic float")
+		return nil
+	})
 	reg("math.IsNaN", func(g *G, fr *Frame, fn *ssa.Function, a []Value) Value {
 		return mkBool(FPPred("fp.isNaN", a[0].(F64).Term()))
 	})
